@@ -243,6 +243,7 @@ class Engine:
     def __init__(self, P, opaque=(), inline_depth=6, max_states=60000, subst=None, models=None, inline_extern=(), loops="fail"):
         self.P = P
         self.loops = loops          # "fail": a back edge raises NotTabulable; "havoc": generic-iteration abstraction
+        self.skip_tracing = True
         self.trace_calls = set()    # opaque callees whose calls are recorded (in order) in the path trace
         self.mod_summaries = {}     # opaque callee -> (index of the &mut argument, pointee ADT, fields it may modify)
         self.opaque = set(opaque)
@@ -851,6 +852,12 @@ class Engine:
                 s2.cond.append((("discr", self.freeze(s2, x)), ("not", tuple(sorted(map(str, covered))))))
                 out.append((s2, other))
             return out
+        # logging noise: the branch structure of tracing macro expansions is irrelevant to every rule; follow the "disabled" side only
+        if self.skip_tracing and is_tracing_term(d):
+            for tv, b in targets:
+                if tv == 0:
+                    return [(st, b)]
+            return [(st, other)]
         # opaque integer / bool term
         if d in st.vals:
             v = st.vals[d]
@@ -962,6 +969,16 @@ def is_recon(P, ret, x, known):
     if ret[0] == "tuple":
         return all(is_recon(P, f, ("field", x, i), known) for i, f in enumerate(ret[1]))
     return False
+
+
+def is_tracing_term(t):
+    if not isinstance(t, tuple) or not t:
+        return False
+    if t[0] == "app" and isinstance(t[1], str) and (t[1].startswith("tracing") or "tracing_core::" in t[1] or "tracing::" in t[1]):
+        return True
+    if t[0] == "static" and ("CALLSITE" in t[1] or "tracing" in t[1]):
+        return True
+    return any(is_tracing_term(x) for x in t[1:] if isinstance(x, tuple))
 
 
 def strip_turbofish(s):
@@ -1255,6 +1272,15 @@ def m_max_min(which):
     return m
 
 
+PRIM_SELF = re.compile(r"^<([ui](8|16|32|64|128|size)) as core::cmp::Ord>::")
+
+
+def _prim_minmax(which, eng, st, args, info):
+    if not PRIM_SELF.match(str(info.get("fn_args") or "")):
+        return None
+    return m_max_min(which)(eng, st, args, info) or [(st, (which,) + tuple(sorted(args, key=repr)))]
+
+
 def m_intrinsic1(name, fn=None):
     def m(eng, st, args, info):
         a = args[0]
@@ -1478,8 +1504,8 @@ DEFAULT_MODELS = {
     "core::num::saturating_sub": m_saturating("sub"),
     "core::num::saturating_add": m_saturating("add"),
     "core::num::abs_diff": lambda eng, st, args, info: [(st, ("abs_diff",) + tuple(sorted(args, key=repr)))],
-    "core::cmp::Ord::max": lambda eng, st, args, info: (m_max_min("max")(eng, st, args, info) or [(st, ("max",) + tuple(sorted(args, key=repr)))]),
-    "core::cmp::Ord::min": lambda eng, st, args, info: (m_max_min("min")(eng, st, args, info) or [(st, ("min",) + tuple(sorted(args, key=repr)))]),
+    "core::cmp::Ord::max": lambda eng, st, args, info: _prim_minmax("max", eng, st, args, info),
+    "core::cmp::Ord::min": lambda eng, st, args, info: _prim_minmax("min", eng, st, args, info),
     "core::ops::try_trait::Try::branch": m_try_branch,
     "<core::option::Option<T> as core::ops::try_trait::Try>::branch": m_try_branch,
     "<core::result::Result<T, E> as core::ops::try_trait::Try>::branch": m_try_branch,
